@@ -9,8 +9,9 @@ import facts
 VERIF = facts.VERIF
 if os.environ.get("XCPV_NOEVIDENCE"):
     # self-test runs against scratch copies must not touch the real evidence / replay files
-    OUT = os.path.join(VERIF, "out", "selftest", "violations")
-    EVID = os.path.join(VERIF, "out", "selftest", "evidence")
+    _tag = hashlib.sha256(os.environ.get("XCPV_REPO", "repo").encode()).hexdigest()[:10]
+    OUT = os.path.join(VERIF, "out", "selftest", _tag, "violations")
+    EVID = os.path.join(VERIF, "out", "selftest", _tag, "evidence")
 else:
     OUT = os.path.join(VERIF, "out", "violations")
     EVID = os.path.join(VERIF, "evidence")
@@ -148,7 +149,10 @@ class Report:
         os.makedirs(OUT, exist_ok=True)
         for old in os.listdir(OUT):
             if old.startswith(self.prop + "-"):
-                os.unlink(os.path.join(OUT, old))
+                try:
+                    os.unlink(os.path.join(OUT, old))
+                except FileNotFoundError:
+                    pass
         lines = []
         for o in known_hits:
             lines.append("KNOWN-FINDING: property=%s %s -- %s (%s)" % (self.prop, o.key, o.what, o.loc))
